@@ -471,6 +471,32 @@ pub fn c16_subst() -> i32 {
         let got: BTreeMap<Vec<String>, String> = subs.iter().map(|(k, v)| (k.clone(), { let p = v.path(); quote::quote!(#p).to_string() })).collect();
         if got != model { found = Some((format!("{seq:?}"), format!("rules {got:?} differ from last-insert-wins / insert-if-absent model {model:?}"))); break 'o; }
     } } }
+    // extend([..]): elements are inserted front to back (last wins); the first rejected element stops with an error and the
+    // elements before it stay inserted
+    if found.is_none() {
+        'x: for a in 0..n { for b in 0..n { for c in [0usize, 5, 10, 11] {
+            let ia = &ops[a]; let ib = &ops[b]; let ic = &ops[c % n];
+            tried += 1;
+            let mk = |o: &(i32, usize, String, usize, String)| -> (syn::Path, scale_typegen::typegen::settings::substitutes::AbsolutePath) {
+                (syn::parse_str::<syn::TypePath>(&o.2).unwrap().path, absolute_path(syn::parse_str::<syn::TypePath>(&o.4).unwrap().path).unwrap()) };
+            let mut subs = TypeSubstitutes::new();
+            let mut model: BTreeMap<Vec<String>, String> = BTreeMap::new();
+            // a first plain insert, then extend with two elements
+            let (s0, t0) = mk(ia);
+            let rejected0 = ia.1 == 3;
+            let r0 = subs.insert(s0.clone(), t0);
+            if r0.is_ok() != !rejected0 { found = Some((format!("insert {ia:?}"), "wrong accept/reject".into())); break 'x; }
+            let tstr = |t: &str| { let p: syn::Path = syn::parse_str::<syn::TypePath>(t).unwrap().path; quote::quote!(#p).to_string() };
+            let keyof = |p: &syn::Path| -> Vec<String> { p.segments.iter().map(|x| x.ident.to_string()).collect() };
+            if !rejected0 { model.insert(keyof(&s0), tstr(&ia.4)); }
+            let r = subs.extend(vec![mk(ib), mk(ic)]);
+            let mut want_err = false;
+            for o in [ib, ic] { if o.1 == 3 { want_err = true; break; } model.insert(keyof(&mk(o).0), tstr(&o.4)); }
+            if r.is_err() != want_err { found = Some((format!("insert {ia:?}; extend [{ib:?}, {ic:?}]"), format!("extend returned {} although {}", if r.is_err() { "an error" } else { "Ok" }, if want_err { "an element is malformed" } else { "all elements are valid" }))); break 'x; }
+            let got: BTreeMap<Vec<String>, String> = subs.iter().map(|(k, v)| (k.clone(), { let p = v.path(); quote::quote!(#p).to_string() })).collect();
+            if got != model { found = Some((format!("insert {ia:?}; extend [{ib:?}, {ic:?}]"), format!("rules {got:?} differ from the front-to-back, last-wins, stop-at-first-rejected model {model:?}"))); break 'x; }
+        } } }
+    }
     report(found, tried)
 }
 
